@@ -70,7 +70,9 @@ StakeCallX(u, a, kind, fails, expected, other) ==
   [m |-> "liquid_stake", s |-> u, funds |-> <<<<NatD, a>>>>,
    mint_to |-> IF kind = "native" THEN NatOf(u) ELSE IF kind = "other" THEN other ELSE "", to_native |-> "none", expected |-> expected,
    ibc_fail |-> fails, rclass |-> IF SamePrefix THEN "both" ELSE IF kind = "native" THEN "native" ELSE "protocol",
-   r |-> IF kind = "native" THEN NatOf(u) ELSE IF kind = "other" THEN other ELSE u, skind |-> "eoa"]
+   r |-> IF kind = "native" THEN NatOf(u) ELSE IF kind = "other" THEN other ELSE u,
+   \* "c1" is a 32-byte (contract / ibc-hooks style) account: it must name a mint_to address
+   skind |-> IF u = "c1" THEN "long" ELSE "eoa"]
 StakeCall(u, a, kind, fails) == StakeCallX(u, a, kind, fails, NoAmt, "")
 UnstakeCall(u, a) == [m |-> "liquid_unstake", s |-> u, funds |-> <<<<LstD, a>>>>]
 SubmitCall(u) == [m |-> "submit_batch", s |-> u]
@@ -141,7 +143,7 @@ ExactMint(a) == LET sweep == w.c.L = 0 /\ w.c.N # 0 IN MintAmount(IF sweep THEN 
 StakeVariants == \/ /\ "slippage" \in Extras
                     /\ \E u \in Users, a \in StakeAmts, d \in {0, 1} : Do(StakeCallX(u, a, "self", << >>, ExactMint(a) + d, ""))
                  \/ /\ "mintto" \in Extras
-                    /\ \E u \in Users, a \in StakeAmts, o \in (Users \cup {"c1"}) : o # u /\ Do(StakeCallX(u, a, "other", << >>, NoAmt, o))
+                    /\ \E u \in Users, a \in StakeAmts, o \in (Users \cup {"c1", "u1"}) : o # u /\ Do(StakeCallX(u, a, "other", << >>, NoAmt, o))
 Unstake      == \E u \in Users, a \in UnstakeAmts : Bal(w.bank, u, LstD) >= a /\ Do(UnstakeCall(u, a))
 Submit       == \E u \in Principals : Do(SubmitCall(u))
 Withdraw_    == \E u \in Users, b \in BatchIds(w.c) : Do(WithdrawCall(u, b))
